@@ -107,7 +107,7 @@ class ReturnType:
     The return type can either be a single type or a pair such as <type1, type2>.
     """
     # rule to parse optional std:: in front of `pair`
-    optional_std = Optional(Literal('std::')).suppress()
+    optional_std = Optional(Literal('std') + Literal('::')).suppress()
     _pair = (
         optional_std + PAIR.suppress()  #
         + LOPBRACK  #
